@@ -29,7 +29,8 @@ TopHelpers == {"IsNil", "NotEmpty", "ItemsEqual-nil", "ItemsEqual-self", "ItemsE
                "CollectionPath.IRI", "CollectionPath.Of", "CollectionPath.AddTo",
                \* the Equals METHOD of a valid value, given the nil item as its argument
                "Object.Equals", "Actor.Equals", "Activity.Equals", "IntransitiveActivity.Equals", "Link.Equals", "Collection.Equals",
-               "OrderedCollection.Equals", "CollectionPage.Equals", "OrderedCollectionPage.Equals", "ItemCollection.Equals", "IRI.ItemsMatch"}
+               "OrderedCollection.Equals", "CollectionPage.Equals", "OrderedCollectionPage.Equals", "ItemCollection.Equals", "IRI.ItemsMatch",
+               "Collection.Append", "JSONWriteIRIProp"}    \* (an Append of nothing must not add a member: the harness reports "grew")
 EqualsMethods == {"Object.Equals", "Actor.Equals", "Activity.Equals", "IntransitiveActivity.Equals", "Link.Equals", "Collection.Equals",
                   "OrderedCollection.Equals", "CollectionPage.Equals", "OrderedCollectionPage.Equals", "ItemCollection.Equals"}
 \* helpers applied to an otherwise valid value holding the nil item (as list member / as property)
